@@ -87,6 +87,15 @@ BadBuild == {
     "from_container filename=[\"src1\",\"src2\"]",                              \* list where a scalar is required
     "from_overlayed [ from_container filename=\"src1\" ]",                      \* fewer than two sources
     "filter_zoom min=1" }                                                        \* pipeline must start with a read operation
+\* an ill-typed NESTED pipeline makes the whole program ill-typed, wherever it stands in the source list and however many
+\* well-typed ones stand next to it (three sources: two remain if one is dropped)
+BadNested == { "from_nowhere filename=\"src3\"", "from_container", "from_container filename=\"src3\" | filter_zoom min=abc",
+               "from_container filename=\"src3\" | frobnicate", "from_container filename=\"src3\" | filter_bbox bbox=[1,2,3]" }
+GoodNested == << "from_container filename=\"src1\"", "from_container filename=\"src2\" | filter_zoom max=3" >>
+BadBuildNested == { op \o " [ " \o (IF pos = 1 THEN b \o ", " \o GoodNested[1] \o ", " \o GoodNested[2]
+                                     ELSE IF pos = 2 THEN GoodNested[1] \o ", " \o b \o ", " \o GoodNested[2]
+                                     ELSE GoodNested[1] \o ", " \o GoodNested[2] \o ", " \o b) \o " ]" :
+                    op \in {"from_overlayed", "from_vectortiles_merged"}, b \in BadNested, pos \in 1..3 }
 GoodBuild == {
     "from_container filename=\"src1\"",
     "from_container filename=src1 | filter_zoom min=1 max=2",
@@ -101,7 +110,7 @@ Init ==
        /\ Emit([kind |-> "wellformed", text |-> RenderPipeline(ast, ch), ast |-> ast, ch |-> ch])
     \/ /\ kind = "malformed" /\ ast = NoAst /\ ch = NoCh /\ mut \in Malformed
        /\ Emit([kind |-> "malformed", text |-> mut])
-    \/ /\ kind = "badbuild" /\ ast = NoAst /\ ch = NoCh /\ mut \in BadBuild
+    \/ /\ kind = "badbuild" /\ ast = NoAst /\ ch = NoCh /\ mut \in BadBuild \cup BadBuildNested
        /\ Emit([kind |-> "badbuild", text |-> mut])
     \/ /\ kind = "goodbuild" /\ ast = NoAst /\ ch = NoCh /\ mut \in GoodBuild
        /\ Emit([kind |-> "goodbuild", text |-> mut])
